@@ -637,8 +637,12 @@ pub trait Personality: std::any::Any {
 /// writable parts and reports a length chosen by the tape (0..=writable length).
 pub struct PatternDevice {
     pub full_len: bool,
-    /// chain seq -> (hash of the readable bytes the device saw, their length, used length)
-    pub seen: BTreeMap<(u16, u64), (u64, usize, u32)>,
+    /// Fault: sometimes report a used length that is not the number of bytes written
+    /// (0, one more than the writable size, 65536, 2^32-1, ...).
+    pub lie_len: bool,
+    /// chain seq -> (hash of the readable bytes the device saw, their length, reported used
+    /// length, bytes actually written)
+    pub seen: BTreeMap<(u16, u64), (u64, usize, u32, u32)>,
 }
 
 pub fn hash_bytes(b: &[u8]) -> u64 {
@@ -661,10 +665,21 @@ impl Personality for PatternDevice {
         };
         let data: Vec<u8> = (0..n).map(|i| pattern_byte(chain.seq, i)).collect();
         ctx.write_out(chain, &data);
-        if self.seen.len() < 100_000 {
-            self.seen.insert((q, chain.seq), (hash_bytes(&input), input.len(), n as u32));
+        let mut reported = n as u32;
+        if self.lie_len && ctx.tape.choose(4) == 1 {
+            reported = match ctx.tape.choose(5) {
+                0 => wl as u32 + 1,
+                1 => 0x1_0000,
+                2 => u32::MAX,
+                3 => 0,
+                _ => ctx.tape.choose(u32::MAX as u64) as u32,
+            };
+            ctx.fault("used_len_lie");
         }
-        n as u32
+        if self.seen.len() < 100_000 {
+            self.seen.insert((q, chain.seq), (hash_bytes(&input), input.len(), reported, n as u32));
+        }
+        reported
     }
     fn on_reset(&mut self) {
         self.seen.clear();
@@ -827,7 +842,7 @@ impl World {
             tr: TrState::new(),
             bus: Default::default(),
             dq: Vec::new(),
-            dev: Some(Box::new(PatternDevice { full_len: false, seen: BTreeMap::new() })),
+            dev: Some(Box::new(PatternDevice { full_len: false, lie_len: false, seen: BTreeMap::new() })),
             violations: Vec::new(),
             stats: Stats::default(),
             idle_spins: 0,
